@@ -58,7 +58,8 @@ CHECKS["C05"] = (
     "x both strands with UNBOUNDED symbolic start and gaps (0-bp gaps included); windowed scans with symbolic window; "
     "construct_frames_from_location with symbolic lengths; fast/codon/cached sequence paths, translation (3 tables x truncate) "
     "and start/stop predicates against the standard code on a concrete genome (offsets enumerated by the solver)."
-    " Also: construct_frames_from_location as a pure function under real memoisation (earlier results unchanged, caller edits irrelevant); codon-less CDSs answer every predicate with the empty value or a documented refusal.",
+    " Also: construct_frames_from_location as a pure function under real memoisation (earlier results unchanged, caller edits irrelevant); codon-less CDSs answer every predicate with the empty value or a documented refusal."
+    " Round 8: translation on a genome with ambiguity codes - a truncated translation never looks past the first in-frame stop (3 tables x truncate x strict).",
     _NOTE + " Sequence legs: inputs are realised, the body then runs natively; the solver closes the finite input space.",
     "DESIGN.md §3 C05")
 CHECKS["C15"] = (
@@ -88,7 +89,8 @@ CHECKS["C03"] = (
     "EVERY 1-block and 2-block location (sorted, adjacent, empty, overlapping) within the sequence on both strands is extracted and "
     "compared base by base with the coordinate map and an independent IUPAC complement; strand reversal, every two-way split, every "
     "slice bound pair in [-n-1,n+1] of located sequences, reverse_complement and append (acceptance and recorded location) are covered."
-    " Also: append with spliced pieces and re-appending the halves of a spliced sequence cut anywhere; relative-minus windows taken after the enclosing location was extracted.",
+    " Also: append with spliced pieces and re-appending the halves of a spliced sequence cut anywhere; relative-minus windows taken after the enclosing location was extracted."
+    " Round 8: locations built through from_single_intervals equal the primary constructor's (block order, coordinate map, characters); append of two spliced pieces leaves both operands and later equal locations intact.",
     _NOTE + " Coordinates are realised (str slicing is a C boundary): the claim is exhaustive over the stated finite spaces, not over unbounded integers.",
     "DESIGN.md §3 C03")
 CHECKS["C04"] = (
@@ -99,7 +101,8 @@ CHECKS["C04"] = (
     "strand = product. Chunk legs: symbolic chunk offset on either strand, lift down and back == intersection with the window, "
     "chunk-to-chunk re-lift; sequence preservation by identity and by type on tagged sequences at depth 2 and 3; missing ancestors refused."
     " Also: lift-over through a placement of two OVERLAPPING blocks (length preserved, every child base covered; block order is the library's sorted normal form)."
-    " Round 7: a 20-block child through a two-block placement with the junction anywhere; lift-over by sequence identity on long named chromosomes differing in one base.",
+    " Round 7: a 20-block child through a two-block placement with the junction anywhere; lift-over by sequence identity on long named chromosomes differing in one base."
+    " Round 8: io.parser chunk / chromosome parents for same-named sequences differing in one base.",
     _NOTE, "DESIGN.md §3 C04")
 CHECKS["C07"] = (
     _CH,
@@ -112,7 +115,8 @@ CHECKS["C07"] = (
     "chunk-relative codon; computed identifiers (real MD5) of feature/transcript/CDS/gene/collections equal across no parent / chromosome / chunk. "
     "F8b and F18 excluded by their exact regions."
     " Also: every position conversion of a coding transcript on a cutting chunk equals the parent-less twin's; isoform CDSs with equal spans evaluated alternately on one chunk; the primary transcript/feature is the twin's. Block structure of the chunk view = chromosome blocks clipped to the window (touching blocks kept apart); codon windows by chromosome start/end on chunk-built CDSs list exactly the model codons inside window and chunk (defect found and repaired, a55c0c6); stop/start predicates and scan_codons of the chunk view."
-    " Round 7: UTRs of chunk-built transcripts = chromosome UTR bases inside the window, on plus- and minus-strand chunks (defect found and repaired, 3b5d60d); every chunk_relative_* accessor, conversion along the visible part and from_chunk_relative_location on cutting chunks of both strands (b0cbd12, 68dca75); sequence answers on minus-strand chunks.",
+    " Round 7: UTRs of chunk-built transcripts = chromosome UTR bases inside the window, on plus- and minus-strand chunks (defect found and repaired, 3b5d60d); every chunk_relative_* accessor, conversion along the visible part and from_chunk_relative_location on cutting chunks of both strands (b0cbd12, 68dca75); sequence answers on minus-strand chunks."
+    " Round 8: codon windows asked in chromosome coordinates of a chunk-built CDS equal the twin's; io.parser chunk parents are built from their own sequence content; CDS- and feature-level chunk-relative conversions.",
     _NOTE, "DESIGN.md §3 C07")
 CHECKS["C08"] = (
     _CH + "; cvc5/z3 string queries over digest pre-image templates extracted from the real constructors",
@@ -124,7 +128,8 @@ CHECKS["C08"] = (
     "phases; pickle with none/chromosome/un-named chromosome/chunk parents and variant collections; schema+JSON load/dump with and without "
     "variants. F7 (VariantInterval pre-image without separator) recorded."
     " Also: features with blocks sharing a start (exported lists = constructor lists); an exported dictionary is not consumed by importing it (imports twice to the same collection)."
-    " Round 7: chunk-relative dictionary export re-imported on the chunk sequence alone (blocks, chunk-relative frames, protein); two same-named long genomes re-imported alternately through from_dict / pickle.",
+    " Round 7: chunk-relative dictionary export re-imported on the chunk sequence alone (blocks, chunk-relative frames, protein); two same-named long genomes re-imported alternately through from_dict / pickle."
+    " Round 8: the alternative constructors from a Location (from_location) describe the same object (dictionary form and guid).",
     _NOTE + " MD5 collision freedom assumed; pickle's byte format and a process-level PYTHONHASHSEED sweep are outside the claim.",
     "DESIGN.md §3 C08")
 CHECKS["C13"] = (
@@ -135,7 +140,8 @@ CHECKS["C13"] = (
     "the solver, whole chromosome and chunk): alternative_genomic_sequence == literal substitution, lifted locations and "
     "Feature/Transcript(coding and non-coding)/CDS.incorporate_variants reproduce the edited reference (CDS also in frame and inside the "
     "exons); 3-variant collections in any order refused exactly when a pair overlaps. F4 (left-to-right collection lift-over) recorded with its region."
-    " Also: collections built with two variant collections (alternative_haplotype_mapping per haplotype); the reference object is unchanged by a lift-over and a second lift-over gives the same answer. Single variants on overlapping / nested two-block locations; locations printing the same numbers in chunk and chromosome coordinates lifted through one haplotype object in both orders.",
+    " Also: collections built with two variant collections (alternative_haplotype_mapping per haplotype); the reference object is unchanged by a lift-over and a second lift-over gives the same answer. Single variants on overlapping / nested two-block locations; locations printing the same numbers in chunk and chromosome coordinates lifted through one haplotype object in both orders."
+    " Round 8: two-haplotype collections placed where genes straddle a 2^17 / 2^18 coordinate (real bins()); one VariantInterval object shared by two collections on different references.",
     _NOTE + " The VCF grouping clause is outside the claim (PyVCF absent).", "DESIGN.md §3 C13")
 CHECKS["C20"] = (
     _CH,
@@ -144,7 +150,8 @@ CHECKS["C20"] = (
     "is_coding = any, primary = flagged (two flags refused) else argmax (CDS, spliced length, earliest) as a symbolic term, merged "
     "transcript/CDS/feature cover exactly the union (probe position), types = union; annotation collections iterate sorted by "
     "start (stable) with inferred bounds; primary sequence accessors on a concrete genome."
-    " Aggregating leaves the members as they were (types of a re-collected member). Two and three variant collections handed over out of start order.",
+    " Aggregating leaves the members as they were (types of a re-collected member). Two and three variant collections handed over out of start order."
+    " Round 8: a gene and the sub-gene a guid query leaves of it (same guid and span) each answer for their own isoforms, whatever gene_type says.",
     _NOTE, "DESIGN.md §3 C20")
 CHECKS["C09"] = (
     _CH + "; the bin pre-filter is modelled twice: by the EXACT semantics of bins() (z3 terms generated from its source, bin numbers symbolic) and by a nondeterministic CONTRACT stub whose contract C16 proves",
@@ -156,7 +163,8 @@ CHECKS["C09"] = (
     "bins and real sequence re-chunking (sequences restricted to new bounds, idempotence, chunk offsets across a 128 kb boundary, members cut "
     "by the chunk edge, 2^29 boundary = recorded finding F6c); strict and relaxed queries against the exact bin terms for ALL integer "
     "coordinates (F6d region excluded)."
-    " Also: two different genomes carrying the same chromosome name queried alternately in one process.",
+    " Also: two different genomes carrying the same chromosome name queried alternately in one process."
+    " Round 8: 72-member collections with long members starting upstream of short ones (real bins()); collections holding only variant collections.",
     _NOTE + " cgranges branch not installed, not covered.", "DESIGN.md §3 C09")
 CHECKS["C19"] = (
     _CH + " in CrossHair's native mode: search for an input that raises an undocumented exception or yields an ill-formed object",
@@ -181,7 +189,8 @@ CHECKS["C11"] = (
     "strand, ids, symbols, locus tag, biotypes, protein id, product, qualifiers, sequences), re-export reproduces columns 1-8 and is a fixed point "
     "from the second generation. F15, F16, F17 recorded."
     " Isoforms with and without transcript id in one gene are among the identifier patterns."
-    " Round 7: rows of a gene / feature collection on a chunk placed on the MINUS strand (chromosome rows = twin's, chunk-relative rows = mirror image with the chunk strand on every row; defect found and repaired, 2b8acd1).",
+    " Round 7: rows of a gene / feature collection on a chunk placed on the MINUS strand (chromosome rows = twin's, chunk-relative rows = mirror image with the chunk strand on every row; defect found and repaired, 2b8acd1)."
+    " Round 8: coding pseudogene transcripts and number-like qualifier text (1.10, 007, 1e3, +5) survive export -> parse.",
     _NOTE + " The parse legs are realised (gffutils/sqlite3 run natively): exhaustive over the stated finite spaces only.", "DESIGN.md §3 C11, §8.1")
 CHECKS["C17"] = (
     _CH,
@@ -191,7 +200,8 @@ CHECKS["C17"] = (
     "start/stop/sense codons, every CDS window x start frame x strand x translation table x flavour closed by the solver: "
     "5'-partial <=> first codon not a start of the table, 3'-partial <=> not ending in frame on a stop, codon_start = frame+1, pseudo "
     "<=> in-frame stop, mRNA omitted in the prokaryotic flavour; adjacent CDS blocks merged; seeded output byte-identical."
-    " Also: adjacent CDS blocks with arbitrary annotated frames (pseudo / partial marks / codon_start of the MERGED CDS that is written) and two-exon CDSs with exon lengths 1..9 (stop codons split by the intron). Isoforms sharing CDS bounds with different first exons keep their own partial marks; exporting one collection three times gives identical text and leaves the model untouched (rRNA/tRNA/ncRNA products).",
+    " Also: adjacent CDS blocks with arbitrary annotated frames (pseudo / partial marks / codon_start of the MERGED CDS that is written) and two-exon CDSs with exon lengths 1..9 (stop codons split by the intron). Isoforms sharing CDS bounds with different first exons keep their own partial marks; exporting one collection three times gives identical text and leaves the model untouched (rRNA/tRNA/ncRNA products)."
+    " Round 8: the table is a function of seed and collections alone - after an export with another seed or of a subset, for iterator / generator / tuple input, writer module reloaded for the reference; seed 0 (defect found and repaired, 15ec74d).",
     _NOTE, "DESIGN.md §3 C17")
 CHECKS["C10"] = (
     _CH + ": the SCHEDULE of operations is the symbolic variable (real memoisation on, bodies run natively), plus one inductive step over lazy-slot states with symbolic coordinates",
